@@ -105,6 +105,12 @@ def case_map_canon(bounds):
                     same.append(sym.zint(a.step) == sym.zint(b.step))
                     same.append(sym.zint(a.bound) == sym.zint(b.bound))
         eng().oblige("canonicalize:idempotent", z3.And(same))
+        # canonicalising is a query: the layout it was called on still is the layout it was
+        rb = [[s.bound for s in ts.strides] for ts in tsl.tstrides]
+        rs = [[s.step for s in ts.strides] for ts in tsl.tstrides]
+        eng().oblige("canonicalize:receiver_unchanged", z3.BoolVal(rb == [list(b) for b in bounds]), dict(bounds=bounds, after=str(rb)))
+        if rb == [list(b) for b in bounds]:
+            eng().oblige("canonicalize:receiver_unchanged", z3.And([sym.zint(a) == sym.zint(b) for ra, sa in zip(rs, steps) for a, b in zip(ra, sa)] or [z3.BoolVal(True)]))
 
     def replay(f):
         m = f["model"]
@@ -127,6 +133,8 @@ def case_map_canon(bounds):
             bad.append("not idempotent")
         if c.offset != tsl.offset:
             bad.append("offset")
+        if [[s.bound for s in ts.strides] for ts in tsl.tstrides] != [list(b) for b in bounds] or [[s.step for s in ts.strides] for ts in tsl.tstrides] != [list(ss) for ss in steps]:
+            bad.append(f"canonicalize changed the layout it was called on: now {tsl}")
         return bool(bad), f"tsl={tsl} x={x}: {bad}"
 
     return run_case(fn, replay, witness=True, sample=dict(bounds=bounds), key=str(bounds))
